@@ -290,6 +290,14 @@ def gen_graphics(tier, rng):
                     ys = "-3:-1:1,0:H-1:1,H:H+3:1,%s" % EXT_YS
                     cost = sum(sweep_cost(t, len(t.ys(ys, r)), t.size(r)[0] + 23, 3) for r in ROTS)
                     qs.append(Q("setpix_sweep %s all %s z,f,r" % (t.spec, ys), cost, 'var sweep'))
+    # degenerate and very wide / very tall run-time geometries ("any width and height"): zero width, zero height,
+    # single row / column, row strides beyond 2^10 and 2^13 bytes
+    for (w, h) in [(0, 0), (0, 1), (0, 5), (1, 0), (5, 0), (0, 9), (9, 0), (1, 1), (1, 9), (9, 1), (8193, 2), (2, 8193), (65537, 1)]:
+        for ct in ('color', 'tri', 'oct'):
+            t = Target("var:%s:%d:%d:%d" % (ct, w, h, 1 if ct == 'tri' and (w + h) % 2 else 0))
+            ys = "-3:-1:1,0:H-1:%d,H:H+3:1,%s" % (1 if h < 64 else 1024, EXT_YS)
+            cost = sum(sweep_cost(t, len(t.ys(ys, r)), t.size(r)[0] + 23, 3) for r in ROTS)
+            qs.append(Q("setpix_sweep %s all %s z,f,r" % (t.spec, ys), cost, 'var sweep (degenerate / huge)'))
     # explicit PRNG probes (all targets, all i32 magnitudes)
     nrand = 3000 if tier == 'quick' else 40000
     for k in range(nrand):
